@@ -184,6 +184,45 @@ FindSet(R, L, id) ==
       [] OTHER            -> {NoClient}
 
 (***************************************************************************)
+(* Ambiguous texts.  An EUI-64 written with colons is also the text of an  *)
+(* IPv6 address (and an IPv6 address whose groups all have two digits is   *)
+(* also the text of an EUI-64).  A lookup by such a text resolves to the   *)
+(* owner under the first reading that HAS an owner: the mac's owner if     *)
+(* somebody registered that mac, else whoever the address reading gives.   *)
+(* The address an EUI-64 text denotes (2:1:...) lies outside the embedded  *)
+(* address space, so among the prefixes of a universe only one of length 0 *)
+(* (written ::/0) contains it; it has no exact owner and no lease.  This   *)
+(* is the answer when the universe is written in IPv6; written in IPv4     *)
+(* (0.0.0.0/0) no prefix contains that address and the mac reading alone   *)
+(* decides.                                                                *)
+(***************************************************************************)
+FindMacTextV6(R, id) ==
+    IF Owners(R, id) # {} THEN Owner(R, id)
+    ELSE LET wide == {p \in IdsOf(R) : Kind(p) = "net" /\ p[3] = 0} IN
+         IF wide = {} THEN NoClient ELSE Owner(R, CHOOSE p \in wide : TRUE)
+
+(***************************************************************************)
+(* Attribution for the query log and the statistics (Storage.FindLoose,    *)
+(* called by home for the ClientID of the request and then for the text of *)
+(* its address).  It is the same request, so the same precedence clause    *)
+(* holds (dnsforward/stats.go: "Filters have the same priority") -- with   *)
+(* one documented difference: the address arrives WITHOUT its zone (query  *)
+(* log entries do not carry one), so after the exact match an "ip"         *)
+(* identifier that differs from it only by a zone still counts as the      *)
+(* exact address, before any prefix; if clients own it in several zones    *)
+(* the doc of FindLoose calls the result indeterminate: a SET.  n has no   *)
+(* zone here.  A text that is well-formed under several identifier kinds   *)
+(* (a ClientID spelled like a mac, an IPv6 address spelled like an EUI-64) *)
+(* is an identifier of the kind the caller means, not of the look-alike    *)
+(* kind -- unless a client really owns it under that kind.                 *)
+(***************************************************************************)
+LooseSet(R, L, cid, n) ==
+    IF cid # NoId /\ Owners(R, cid) # {} THEN {Owner(R, cid)}
+    ELSE IF Owners(R, <<"ip", n, 0>>) # {} THEN {Owner(R, <<"ip", n, 0>>)}
+    ELSE LET twins == {c \in R : \E id \in c.ids : Kind(id) = "ip" /\ Bits(id[2]) = Bits(n)} IN
+         IF twins # {} THEN twins ELSE {ByAddr(R, L, n)}
+
+(***************************************************************************)
 (* Effective settings of a request.  G = [vals, svcs, pause] are the       *)
 (* global ones.  who is the client the request is attributed to ("" =      *)
 (* none).  A client that opted out of the global blocked services gets its *)
